@@ -35,3 +35,56 @@ func vfH_C19_Ops() {
 		vfReach("clear")
 	}
 }
+
+// vfH_C19_Bits: Set/IsSet touch exactly the addressed bit (unsafe byte addressing inside the words).
+func vfH_C19_Bits() {
+	bits := vfParam("bits", 512)
+	bl := vfBloom(bits, 3)
+	i, j := vfU64("i"), vfU64("j")
+	vfAssume(i < uint64(bits) && j < uint64(bits))
+	before := bl.IsSet(j)
+	vfBegin()
+	bl.Set(i)
+	vfAssert(bl.IsSet(i), "C19.set-sets")
+	vfAssert(vfImplies(j != i, bl.IsSet(j) == before), "C19.set-exact-bit")
+	// word view agrees with byte view (little endian): bit i of word i/64
+	w := bl.bitset[i>>6]
+	vfAssert((w>>(i%64))&1 == 1, "C19.set-word-view")
+	vfReach("end")
+}
+
+// vfH_C19_JSON: JSONMarshal followed by JSONUnmarshal answers Has identically (the json codec is an
+// identity stub: the documented round-trip contract of encoding/json for []byte and uint64 fields).
+func vfH_C19_JSON() {
+	vfMerge(".Has")
+	bits := vfParam("bits", 512)
+	locs := vfParam("locs", 3)
+	bl := vfBloom(bits, locs)
+	h := vfU64("h")
+	vfBegin()
+	data := bl.JSONMarshal()
+	bl2, err := JSONUnmarshal(data)
+	vfAssert(err == nil, "C19.json-no-error")
+	vfAssert(bl2.size == bl.size && bl2.shift == bl.shift && bl2.setLocs == bl.setLocs && bl2.sizeExp == bl.sizeExp, "C19.json-same-params")
+	vfAssert(len(bl2.bitset) == len(bl.bitset), "C19.json-same-size")
+	vfAssert(bl2.Has(h) == bl.Has(h), "C19.json-same-has")
+	vfReach("end")
+}
+
+// vfH_C19_New: the constructor derives consistent parameters (concrete grid of configurations).
+func vfH_C19_New() {
+	type cfg struct{ a, b float64 }
+	grid := []cfg{{1000, 3}, {512, 1}, {513, 7}, {1, 4}, {100, 0.01}, {8, 0.01}, {65536, 0.01}, {100000, 5}, {1 << 20, 2}}
+	for _, c := range grid {
+		bl := NewBloomFilter(c.a, c.b)
+		sz := bl.size + 1
+		vfAssert(sz&(sz-1) == 0 && sz >= 512, "C19.new-size-pow2")
+		vfAssert(uint64(1)<<bl.sizeExp == sz && bl.shift == 64-bl.sizeExp, "C19.new-exp-shift")
+		vfAssert(uint64(len(bl.bitset)) == sz>>6, "C19.new-bitset-len")
+		vfAssert(bl.setLocs >= 1, "C19.new-locs")
+		if c.b >= 1 {
+			vfAssert(sz >= uint64(c.a) && bl.setLocs == uint64(c.b), "C19.new-covers-entries")
+		}
+	}
+	vfReach("end")
+}
